@@ -65,7 +65,7 @@ def run(ctx):
                 ok = bool(rs) and all(P.is_call(r, 'HashMap::remove', 'HashMap::remove_entry') and key_field in P.fpath(p) for r, p in rs)
                 R.ob('C04.abort', ('server table aborting removal', 'drops the removed entry\'s timer'), ok, 'the timer removed is the one armed for that entry', [g.loc(t)])
             if callee_is(t, 'AbortHandle::abort', 'DelayQueue::remove', 'DelayQueue::clear', 'HashMap::insert', 'HashMap::clear', 'util::Compact::compact'):
-                R.ob('C04.abort', ('server table aborting removal', 'miss has no effect', t['callee'].split('::')[-1]), bool(guarded_by_variant(F, P, g, bb, rm, ['Some'])),
+                R.ob('C04.abort', ('server table aborting removal', 'miss has no effect', t['callee'].split('::')[-1]), bool(guarded_by_variant(F, P, g, bb, rm, ['Some', 'Continue'])),
                      'every effect of the aborting removal is on the hit edge; cancelling an unknown or finished id does nothing', [g.loc(t)])
     # any other mutation of the table's own state (a call taking &mut of a field of self) is on the hit edge as well
     for g in T.bodies(m):
@@ -76,7 +76,7 @@ def run(ctx):
             rs = P.root(P.operand(g, t['args'][0], at=bb))
             if rs and all(r[0] == 'param' and r[1] == m.id and r[2] == 1 and P.fpath(p) for r, p in rs):
                 R.ob('C04.abort', ('server table aborting removal', 'state change only on hit', (t.get('callee') or '?').split('::')[-1] + ' on self.' + '.'.join(P.fpath(rs[0][1]))),
-                     bool(guarded_by_variant(F, P, g, bb, rm, ['Some'])), 'cancelling an unknown or finished id leaves the table\'s state untouched', [g.loc(t)])
+                     bool(guarded_by_variant(F, P, g, bb, rm, ['Some', 'Continue'])), 'cancelling an unknown or finished id leaves the table\'s state untouched', [g.loc(t)])
     R.ob('C04.abort', ('server table aborting removal', 'abort and timer removal present'), n_ab == 1 and n_tm == 1,
          'a cancelled request is aborted and stops counting (entry and timer gone)', [m.loc(m.d)], 'abort=%d timer=%d' % (n_ab, n_tm))
 
@@ -156,7 +156,7 @@ def run(ctx):
         ok = bool(kr) and all(r == ('param', ss.id, 2) and P.fpath(p) == ('request_id',) for r, p in kr)
         R.ob('C04.tracked', ('<BaseChannel as Sink>::start_send', 'untracks the response\'s id'), ok, 'the removal is keyed by response.request_id', [ss.loc(rt)])
         pred = lambda x: result_of(P, x, ('call', ss.id, rb))
-        R.ob('C04.tracked', ('<BaseChannel as Sink>::start_send', 'writes only on the hit edge'), bool(guarded_by_variant(F, P, ss, sb, pred, ['Some'])),
+        R.ob('C04.tracked', ('<BaseChannel as Sink>::start_send', 'writes only on the hit edge'), bool(guarded_by_variant(F, P, ss, sb, pred, ['Some', 'Continue'])),
              'a response reaches the transport only if its request was still tracked (not cancelled, expired or already answered)', [ss.loc(st_)])
         ir = P.root(P.operand(ss, st_['args'][1], at=sb))
         R.ob('C04.tracked', ('<BaseChannel as Sink>::start_send', 'writes the response it was given'), bool(ir) and all(r == ('param', ss.id, 2) and not norm_path(p) for r, p in ir),
